@@ -61,6 +61,7 @@ def label_of(template):
 
 
 TABLE = %r
+REFINE = %r
 
 
 def get_custom_generator(env, **kwargs):
@@ -68,6 +69,13 @@ def get_custom_generator(env, **kwargs):
     p_gen.spell = label_of         # something else the file defines and the generator holds on to
     for key, values, label in TABLE:
         p_gen.add_parameter(key, values, p_gen.spell(label))
+    if REFINE:
+        # look at the coarse sweep, then refine its first parameter (overriding a parameter is documented)
+        coarse = [dict(combo._params) for combo in p_gen]
+        key, values, label = TABLE[0]
+        p_gen.add_parameter(key, list(reversed(values)) if len(set(map(str, values))) > 1 else values,
+                            p_gen.spell(label))
+        p_gen.coarse_rows = len(coarse)
     return p_gen
 '''
 
@@ -208,7 +216,7 @@ def run(ctx, escalated=False):
         c.lines, c.impl_out = [], []
         jobs.append({"id": c.data["id"], "spec": sp, "hash_ws": c.data["hash_ws"], "rlimit": c.data["rlimit"],
                      "pgen": 0, "batch": ctx.rng.choice(BATCHES[:5]), "throttle": 0, "attempts": 1, "symlink": False,
-                     "cli_pgen": PGEN_FILE % [(key, p_["values"], p_["label"]) for key, p_ in params.items()]})
+                     "cli_pgen": PGEN_FILE % ([(key, p_["values"], p_["label"]) for key, p_ in params.items()], j % 2 == 0)})
         c.pgen = 0
         cases.append(c)
     # the model comparison only applies to the studies without generator changes
